@@ -522,6 +522,20 @@ func expandHelperFact(f Fact, depth int) []Fact {
 		return nil
 	}
 	h := call.Call.StaticCallee()
+	// slices.ContainsFunc(xs, pred) == true: pred returned true for some element
+	if h != nil && f.Kind == FTrue && funcPkgPath(h) == "slices" && strings.HasPrefix(h.Name(), "ContainsFunc") && len(call.Call.Args) == 2 {
+		var pf *ssa.Function
+		switch x := call.Call.Args[1].(type) {
+		case *ssa.MakeClosure:
+			pf, _ = x.Fn.(*ssa.Function)
+		case *ssa.Function:
+			pf = x
+		}
+		if pf != nil && pf.Blocks != nil && pf.Signature.Results().Len() == 1 {
+			return withSite(helperFacts(pf, 0, true, false, depth), f)
+		}
+		return nil
+	}
 	if h == nil || h.Blocks == nil || h.Parent() != nil || !strings.HasPrefix(funcPkgPath(h), modPath) {
 		return nil
 	}
@@ -548,7 +562,9 @@ func expandHelperFact(f Fact, depth int) []Fact {
 		return withSite(r, f)
 	}
 	r := helperFacts(h, idx, want, isErr, depth)
-	helperFactsMemo[key] = r
+	if depth == 0 {
+		helperFactsMemo[key] = r // deeper expansions are cut short by the depth bound: not reusable
+	}
 	return withSite(r, f)
 }
 
